@@ -4,8 +4,14 @@ import SpecVerif.Model.Py
 
 Mirrors, step for step:
 
-* `SpecClassMetadata.invalidation_map` (spec_class.py): `invPairs` walks the
-  declarations most-derived-first with a `seen` set and adds, for every
+* `spec_class.bootstrap` (spec_class.py), the part that assembles
+  `metadata.attrs` along the class hierarchy: `effSpec` (`scratchSpec` for
+  annotated names, `overrideSpec` for inherited managed names overridden
+  without annotation: a plain default keeps the parent's `invalidated_by`, a
+  property's own declaration wins over the parent's).
+* `SpecClassMetadata.invalidation_map` (spec_class.py): `invPairs` walks
+  `metadata.attrs` (`effManaged`) and then the binding declarations
+  most-derived-first with a `seen` set and adds, for every
   declared `invalidated_by` key (a name or `'*'`), the pair (key, dependant).
   The walk starts at the metadata *owner* (the first spec class of the MRO):
   members of undecorated subclasses in front of it are not visited
@@ -48,10 +54,21 @@ inductive Kind (V : Type)
   | prop (cache overridable annotated : Bool)
   deriving Repr
 
+/-- How the class body writes the declaration (only matters for `Kind.attr`). -/
+inductive Form
+  /-- `n: T` / `n: T = v` (annotated, plain value or nothing) — for `plain`/`prop` kinds: as the kind says -/
+  | std
+  /-- `n: T = Attr(default=…, invalidated_by=…)` (annotated; the class keeps the default or the `MISSING` sentinel) -/
+  | viaAttr
+  /-- `n = Attr(default=…, invalidated_by=…)` WITHOUT annotation: redeclaration of an inherited managed attribute -/
+  | bareAttr
+  deriving DecidableEq, Repr, Inhabited
+
 structure Member (V : Type) where
   name  : Name
   kind  : Kind V
   invBy : List Key
+  form  : Form
 
 structure ClassDecl (V : Type) where
   /-- decorated with `@spec_class` -/
@@ -367,7 +384,24 @@ def construct (R : RTbl V) (kw : List (Name × V)) : Except Err (Dict V) :=
   if kw.any (fun p => !R.managed p.1) then .error .typeError
   else constructFold R kw R.managedNames Dict.empty
 
-/-! ## Building the table as `SpecClassMetadata` does -/
+/-! ## Building the table as `spec_class.bootstrap` / `SpecClassMetadata` do
+
+`metadata.attrs` of a spec class is assembled class by class (`bootstrap`, base classes first):
+
+* a name annotated in the class body gets a spec built from scratch by `build_attr_spec`
+  (`scratchSpec`): `invalidated_by` of the `Attr(...)`, else of the class-level value found by
+  `getattr(cls, name)` when that is a `spec_property` (`__spec_class_invalidated_by__`);
+* an inherited managed name whose value is overridden in the body WITHOUT annotation keeps the
+  inherited configuration where the body says nothing: a new plain default keeps the parent's
+  `invalidated_by`; a `spec_property` keeps it only when it declares none of its own — its own
+  declaration wins; `n = Attr(...)` is a redeclaration (nothing inherited);
+* a name not mentioned in the body keeps the inherited spec; an undecorated class never rebuilds an
+  entry, but a value / property it puts over a managed name is what instances see (`plainOverride`):
+  its `invalidated_by` is lost (open finding KF-C11-plain-middle-override).
+
+`SpecClassMetadata.invalidation_map` = `invalidated_by` of every `metadata.attrs` entry, then the
+`__spec_class_invalidated_by__` members of the classes of `owner.mro()` for names that are not in
+`metadata.attrs`, first class whose `__dict__` binds the name wins (`seen_attributes`). -/
 
 structure Tbl (V : Type) where
   /-- most derived class first -/
@@ -394,36 +428,125 @@ def invPairs : List (Member V) → List Name → List (Key × Name)
 def invMapOf (ds : List (Member V)) (k : Key) : List Name :=
   ((invPairs ds []).filter (fun p => p.1 == k)).map (·.2)
 
-def isManagedKind : Kind V → Bool
-  | .attr _ => true
+/-- the name is in the `__annotations__` of the class body that declares it -/
+def Member.annotated (m : Member V) : Bool :=
+  match m.kind with
+  | .attr _ => m.form != .bareAttr
   | .prop _ _ ann => ann
   | .plain _ => false
 
-def managedIn (ds : List (Member V)) (n : Name) : Bool :=
-  match lookupMember ds n with
-  | some m => isManagedKind m.kind
-  | none => false
+/-- the class body binds a class-level value under the name (`name in cls.__dict__` after bootstrap) -/
+def Member.binds (m : Member V) : Bool :=
+  match m.kind with
+  | .attr (some _) => true
+  | .attr none => m.form != .std      -- `Attr(...)` without default leaves the `MISSING` sentinel on the class
+  | .plain c => c.isSome
+  | .prop _ _ _ => true
+
+/-- the declarations that bind a class-level value, in attribute-resolution order -/
+def bindingDecls (cs : List (ClassDecl V)) : List (Member V) := (declsOf cs).filter (·.binds)
+
+/-- `getattr(cls, n, MISSING)`: the first binding declaration along the MRO -/
+def clsVal (ds : List (Member V)) (n : Name) : Option (Member V) :=
+  ds.find? (fun m => m.name == n && m.binds)
+
+/-- An entry of `metadata.attrs`, as far as this property is concerned. -/
+structure Eff (V : Type) where
+  /-- `.attr default` or `.prop cache overridable true` (masked) -/
+  kind  : Kind V
+  invBy : List Key
+
+/-- `if not spec.invalidated_by: spec.invalidated_by = fallback` -/
+def ownOr (own fallback : List Key) : List Key := if own.isEmpty then fallback else own
+
+/-- `build_attr_spec` for a name annotated in the class body (`m`); `rest` = declarations of the
+ancestors, where `getattr(cls, name)` continues when the body binds no value. -/
+def scratchSpec (m : Member V) (rest : List (Member V)) : Eff V :=
+  match m.kind with
+  | .prop c o _ => ⟨.prop c o true, m.invBy⟩
+  | .plain v => ⟨.attr v, m.invBy⟩
+  | .attr (some v) => ⟨.attr (some v), m.invBy⟩
+  | .attr none =>
+    if m.form != .std then ⟨.attr none, m.invBy⟩ else
+    match clsVal rest m.name with
+    | none => ⟨.attr none, m.invBy⟩
+    | some m' =>
+      match m'.kind with
+      | .prop c o _ => ⟨.prop c o true, ownOr m.invBy m'.invBy⟩   -- `n: T` over an inherited property
+      | .attr d => ⟨.attr d, m.invBy⟩                              -- inherited class-level default
+      | .plain d => ⟨.attr d, m.invBy⟩
+
+/-- The inherited spec `sp` of a name whose value the body overrides without annotating it
+(`bootstrap`, "Update inherited `Attr` specifications"). -/
+def overrideSpec (m : Member V) (sp : Eff V) : Eff V :=
+  match m.kind with
+  | .attr d => ⟨.attr d, m.invBy⟩                                  -- `n = Attr(...)`: redeclared, nothing inherited
+  | .plain none => sp                                              -- not in the class `__dict__`
+  | .plain (some v) => ⟨.attr (some v), sp.invBy⟩                  -- new default, inherited `invalidated_by`
+  | .prop c o _ => ⟨.prop c o true, ownOr m.invBy sp.invBy⟩        -- own declaration wins, else inherited
+
+/-- An UNDECORATED class between the spec classes that overrides an inherited managed name. The
+`metadata.attrs` entry is not rebuilt (`attr not in spec_cls.__dict__` for every spec class below),
+but attribute resolution and `Attr.lookup_default_value(type(self))` find the declaration: a plain
+value is the default a new instance gets (and `__delattr__` resets to), a property masks the
+attribute. Its `invalidated_by` never reaches the invalidation map (`honour = false`: the name is
+in `seen_attributes`, the member scan skips it) — the property text asks for `honour = true`. -/
+def plainOverride (honour : Bool) (m : Member V) (sp : Eff V) : Eff V :=
+  match m.kind with
+  | .plain (some v) => ⟨.attr (some v), sp.invBy⟩
+  | .prop c o _ => ⟨.prop c o true, if honour then ownOr m.invBy sp.invBy else sp.invBy⟩
+  | _ => sp                          -- not bound (`.plain none`); `Attr`/annotations in an undecorated class: not modelled
+
+/-- What an instance of the class at the head of `cs` (most derived first) sees of a managed name:
+`cls.__spec_class__.attrs.get(n)` (its `invalidated_by`) together with the kind / default that
+attribute resolution and `lookup_default_value` find. `honour` = let the `invalidated_by` of a
+property declared by an undecorated class count (what the property text asks; the library: `false`). -/
+def effSpec (honour : Bool) : List (ClassDecl V) → Name → Option (Eff V)
+  | [], _ => none
+  | c :: rest, n =>
+    match lookupMember c.members n with
+    | none => effSpec honour rest n
+    | some m =>
+      if !c.spec then (effSpec honour rest n).map (plainOverride honour m)
+      else if m.annotated then some (scratchSpec m (declsOf rest))
+      else (effSpec honour rest n).map (overrideSpec m)
+
+def effMember (n : Name) (sp : Eff V) : Member V := ⟨n, sp.kind, sp.invBy, .std⟩
+
+/-- `metadata.attrs` as a list of effective declarations. -/
+def effManaged (honour : Bool) (cs : List (ClassDecl V)) : List (Member V) :=
+  (dedup ((declsOf cs).map (·.name))).filterMap (fun n => (effSpec honour cs n).map (effMember n))
+
+/-- What `invalidation_map` scans: `metadata.attrs`, then the binding members of `owner.mro()`
+(names of `metadata.attrs` are in `seen_attributes` from the start: `invPairs` lets the first win). -/
+def effOwn (honour : Bool) (cs : List (ClassDecl V)) : List (Member V) :=
+  effManaged honour (ownerMro cs) ++ bindingDecls (ownerMro cs)
+
+/-- The same with the members of the undecorated subclasses in front of the owner (attribute
+resolution on `type(self)`; the declarations the property text speaks about). -/
+def effAll (honour : Bool) (cs : List (ClassDecl V)) : List (Member V) :=
+  bindingDecls (cs.takeWhile (fun c => !c.spec)) ++ effOwn honour cs
 
 /-- `invDecls`: the declarations scanned for `invalidated_by`. -/
 def Tbl.resolveWith (T : Tbl V) (invDecls : List (Member V)) : RTbl V :=
-  let full := declsOf T.mro
-  let own := declsOf (ownerMro T.mro)
-  { names := dedup (full.map (·.name))
-    kind := fun n => match lookupMember full n with
+  let managed := fun n => (effSpec false (ownerMro T.mro) n).isSome
+  { names := dedup ((declsOf T.mro).map (·.name))
+    kind := fun n => match lookupMember (effAll false T.mro) n with
       | some m => m.kind
       | none => .plain none
-    managed := managedIn own
+    managed := managed
     managedNames :=
-      (dedup ((declsOf (ownerMro T.mro).reverse).map (·.name)).reverse).reverse.filter (managedIn own)
+      (dedup ((declsOf (ownerMro T.mro).reverse).map (·.name)).reverse).reverse.filter managed
     invMap := invMapOf invDecls
     getter := T.getter
     okType := T.okType
     ctor0 := T.ctor0 }
 
-/-- What the library does: the map is computed from `metadata.owner.mro()`. -/
-def Tbl.code (T : Tbl V) : RTbl V := T.resolveWith (declsOf (ownerMro T.mro))
+/-- What the library does: the map is computed from `metadata.attrs` and `metadata.owner.mro()`;
+declarations of undecorated classes count only for names that are not in `metadata.attrs`. -/
+def Tbl.code (T : Tbl V) : RTbl V := T.resolveWith (effOwn false T.mro)
 
 /-- What the property asks for: every declared dependant of the instance's type. -/
-def Tbl.full (T : Tbl V) : RTbl V := T.resolveWith (declsOf T.mro)
+def Tbl.full (T : Tbl V) : RTbl V := T.resolveWith (effAll true T.mro)
 
 end SpecVerif.C11
